@@ -352,3 +352,23 @@ class swapped_store:
         finally:
             self._restore()
         return False
+
+
+def sweep_stale():
+    """scratch directories of W-STORE runs whose process is gone (killed by a timeout, or its server was killed):
+    pids are recycled, so a leftover could collide with a later run; called once per run-server start"""
+    import re
+
+    pat = re.compile(r'^verif-(\d{7})-s\d{3}')
+    n = 0
+    try:
+        with os.scandir('/dev/shm') as it:
+            names = [e.name for e in it]
+    except OSError:
+        return 0
+    for name in names:
+        m = pat.match(name)
+        if m and not os.path.exists(f'/proc/{int(m.group(1))}'):
+            shutil.rmtree(os.path.join('/dev/shm', name), ignore_errors=True)
+            n += 1
+    return n
